@@ -169,6 +169,40 @@ def run(chk):
         chk.case(key=("v", tuple(lams.tolist()), shape), nontrivial=True, sample=td[-1] if len(chk.samples) < 4 and m <= 3 else None)
         chk.count("vector.calls")
         chk.count("vector.mixed_magnitude" if la.max() > 1e3 * max(la.min(), 1e-300) else "vector.similar")
+    # ---------------------------------------------------------------- r x c matrices of rates in every memory layout
+    # (C order, Fortran order, transposed view, strided slice): the value at [i, j] is the entropy of the rate at [i, j]
+    for t in range(24 if chk.tier == "quick" else 600):
+        r, c = int(rng.integers(2, 5)), int(rng.integers(2, 5))
+        M = np.array([[rate() if rng.random() < 0.8 else 0.0 for _ in range(c)] for _ in range(r)])
+        if rng.random() < 0.25:
+            M = rng.integers(0, 40, (r, c)).astype(float)
+        layout = str(rng.choice(["C", "F", "transposed_view", "strided"]))
+        if layout == "C":
+            arg = np.ascontiguousarray(M)
+        elif layout == "F":
+            arg = np.asfortranarray(M)
+        elif layout == "transposed_view":
+            arg = np.ascontiguousarray(M.T).T
+        else:
+            big = np.zeros((2 * r, 2 * c))
+            big[::2, ::2] = M
+            arg = big[::2, ::2]
+        assert np.array_equal(arg, M)
+        keep = arg.copy()
+        out = np.asarray(poisson_entropy(arg), dtype=float)
+        chk.case(key=("m", M.tobytes(), layout), nontrivial=True)
+        chk.count(f"matrix_layout.{layout}")
+        rep = {"call": f"poisson_entropy({r}x{c} matrix, layout {layout})", "rates": M.tolist(), "returned": out.tolist()}
+        if out.shape != (r, c):
+            chk.violation("counterexample", f"poisson_entropy of a {r}x{c} matrix of rates ({layout}) returned shape {out.shape}", rep)
+            continue
+        single = np.array([[float(np.asarray(poisson_entropy(float(M[i, j]))).reshape(-1)[0]) for j in range(c)] for i in range(r)])
+        if not np.all(np.isfinite(out)) or np.max(np.abs(out - single)) > TOL:
+            i, j = np.unravel_index(int(np.argmax(np.abs(out - single))), out.shape)
+            chk.violation("counterexample", f"poisson_entropy of a {r}x{c} matrix of rates stored in layout {layout}: element [{i},{j}] = {out[i, j]} "
+                          f"but the entropy of the rate at that position, {M[i, j]}, alone is {single[i, j]}", {**rep, "element_wise": single.tolist()})
+        if not np.array_equal(arg, keep):
+            chk.violation("counterexample", f"poisson_entropy modified its {layout} argument", rep)
     lib.correspond(chk, "termination_vs_model", IMPORTS, "list Q * list (list bool) * list (list (Z * Z)) * nat", "check_terms_case",
                    tc, tp, lambda i: td[i], shard=20, jobs=10)
     lib.correspond(chk, "entropy_of_the_whole_series_certified", IMPORTS, "Z * Z * nat * Z * Z", "check_entropy_full_case",
@@ -201,7 +235,7 @@ def run(chk):
     lib.correspond(chk, "joint_entropy_vs_model", IMPORTS, "list (list Q) * list Q * Q", f"check_joint_case {qlit(1e-8)}",
                    jc, jp, lambda i: jd[i], shard=200, jobs=4)
     chk.rule = ("Rates: 0, integers 1..500, log-uniform in [1e-300, 500], negative signs; scalar calls, and vectors / 1 x m matrices / lists of "
-                "2..8 rates of MIXED magnitude (each element from an independent decade) compared element-wise with scalar calls; square "
+                "2..8 rates of MIXED magnitude (each element from an independent decade) compared element-wise with scalar calls; r x c matrices of rates (incl. zeros) in C / Fortran / transposed-view / strided layouts, value at [i,j] = scalar call on the rate at [i,j]; square "
                 "matrices 1..6 (symmetric and not) for the joint entropy. The number of series terms is compared with the Coq termination "
                 "model on the recorded pmf table; a subsample of scalar values is enclosed by verified interval evaluation of the truncated "
                 "entropy inside Coq (1e-9); all values are compared with a log-space reference (1e-9).")
